@@ -169,9 +169,9 @@ def drange(t0 = None, t1 = None, bump = None):
     elif is_period(bump):
         bump = bump.lower()
         bmp = period.search(bump).group()
-        if bump == bmp: ## single bump
-            prd = bump[-1]
-            interval = int(bump[:-1]) * dict(q = 3).get(prd ,1)
+        prd = bump[-1]
+        interval = int(bump[:-1]) * dict(q = 3).get(prd ,1) if bump == bmp else None
+        if bump == bmp and (prd == 'b' or interval > 0): ## single bump: business days, or a forward period (negative periods use the dt_bump loop below)
             if (t1-t0).days * interval < 0:
                 raise ValueError('cannot go from %s to %s in steps of %s'%(t0,t1,bump))
             freq = _LY[prd]
